@@ -284,7 +284,8 @@ class C01(Check):
                 return []
             return [("pyramid", 3, 2), ("pyramid", 3, 1.5), ("pyramid", 2, 3), ("gaussian_pyramid", 3, 2), ("gaussian_pyramid", 3, 1.5)]
         nd = st["img"].n_dims
-        reduced = level > 0
+        # second level (thorough): the full alphabet again on every 2-D kind, the reduced one in 3-D
+        reduced = level > 0 and nd != 2
         out = self._letters_2d(st, reduced) if nd == 2 else self._letters_3d(st, reduced)
         if level == 0:
             s, n = st["root"][1], st["root"][2]
